@@ -119,3 +119,51 @@ def run_rat(ctx):
     for nm, got, want in bad[:2]:
       viol(fam, nm, got, want, inp)
   ctx.extra.setdefault('states_replayed_per_family', {}).update(n)
+  constructor_boundaries(ctx)
+
+
+def constructor_boundaries(ctx):
+  """Boundary regions of the constructors, where the oracle is the postcondition the property states ("produce the
+  rotation they describe"): nearly parallel from_to pairs, Euler angles next to the +-90 degree pitch, and the numpy
+  variants must not alter their arguments."""
+  import jax.numpy as jp
+  from brax import math
+  rs = np.random.RandomState(ctx.seed + 17)
+  nbad = 0
+  for theta in [0.0, 1e-9, 1e-7, 1e-5, 1e-4, 3e-4, 1e-3, 2e-3, 1e-2, 0.1]:
+    for _ in range(4):
+      v1 = rs.randn(3)
+      v1 /= np.linalg.norm(v1)
+      perp = np.cross(v1, rs.randn(3))
+      perp /= np.linalg.norm(perp)
+      v2 = np.cos(theta) * v1 + np.sin(theta) * np.cross(perp, v1)
+      q = np.asarray(math.from_to(jp.asarray(v1), jp.asarray(v2)))
+      got = np.asarray(math.rotate(jp.asarray(v1), jp.asarray(q)))
+      ctx.case(key=('from_to_near', theta, tuple(v1)), nontrivial=theta > 0)
+      if np.max(np.abs(got - v2)) > 1e-12 or abs(np.linalg.norm(q) - 1) > 1e-12:
+        ctx.violation(f'from_to for vectors {theta} rad apart: rotate(v1, q) misses v2 by {np.max(np.abs(got - v2)):.3e}',
+                      {'v1': v1.tolist(), 'v2': v2.tolist(), 'q': q.tolist()}, {'call': 'from_to', 'predicate': 'near_parallel'})
+  for pitch_deg in [89.0, 89.9, 89.95, 89.99, 89.999, -89.0, -89.9, -89.95, -89.99, -89.999]:
+    for _ in range(3):
+      e = np.array([rs.uniform(-170, 170), pitch_deg, rs.uniform(-170, 170)])
+      q = np.asarray(math.euler_to_quat(jp.asarray(e)))
+      e2 = np.asarray(math.quat_to_euler(jp.asarray(q))) * 180 / np.pi
+      q2 = np.asarray(math.euler_to_quat(jp.asarray(e2)))
+      err = min(np.max(np.abs(q - q2)), np.max(np.abs(q + q2)))
+      ctx.case(key=('gimbal', tuple(e)), nontrivial=True)
+      if err > 1e-6:   # the two representations must describe the SAME rotation, however ill-conditioned the angles are
+        ctx.violation(f'quat_to_euler near pitch {pitch_deg} deg does not describe the rotation it was given: error {err:.3e}',
+                      {'euler_deg': e.tolist(), 'quat': q.tolist(), 'euler_back_deg': e2.tolist()},
+                      {'call': 'quat_to_euler', 'predicate': 'gimbal'})
+  for _ in range(20):
+    v = rs.randint(-9, 10, size=3).astype(float)
+    u = rs.randint(-9, 10, size=4).astype(float)
+    w = rs.randint(-9, 10, size=4).astype(float)
+    v0, u0, w0 = v.copy(), u.copy(), w.copy()
+    r1 = math.rotate_np(v, u)
+    r2 = math.rotate_np(v, u)
+    qm = math.quat_mul_np(u, w)
+    ctx.case(key=('np_pure', tuple(v), tuple(u)), nontrivial=True)
+    if not (np.array_equal(v, v0) and np.array_equal(u, u0) and np.array_equal(w, w0) and np.array_equal(r1, r2)):
+      ctx.violation('rotate_np / quat_mul_np altered their arguments (or are not functions of them)',
+                    {'vec_before': v0.tolist(), 'vec_after': v.tolist(), 'quat': u0.tolist()}, {'call': 'rotate_np', 'predicate': 'mutation'})
